@@ -67,7 +67,7 @@ type Script struct {
 
 // DumpPkg renders a library package canonically (reflect walker).
 func DumpPkg(p tds.Package) string {
-	return hlib.Dump(p, "sync.Mutex", "sync.RWMutex")
+	return hlib.Dump(p, "sync.Mutex", "sync.RWMutex", "vsync.Mutex", "vsync.RWMutex")
 }
 
 // Drain is the standard consumer: NextPackage(wait) until a final DONE, an
